@@ -64,6 +64,13 @@ CHECKS['C13'] = {
     'technique': 'TLA+ exact stage machine + TLC enumeration + state replay; TLC-validated observation events',
 }
 
+CHECKS['C14'] = {
+    'text': 'Covar.tla writes the covariance and modified-covariance fits as least-squares problems on the corrmtx data matrices and solves the normal equations by exact Gaussian elimination (LinAlg.tla); TLC checks residual orthogonality, error = squared residual norm and exact recovery of noiseless unit-circle exponentials on the whole bounded space; every solved state is replayed into arcovar, modcovar, pcovar.ar, pmodcovar.ar and, where every lower-order problem is well posed, into arcovar_marple / modcovar_marple (first p coefficients, zero tail, per-sample minimum). N up to 128, orders up to 20: ObsC14.tla.',
+    'design_ref': 'DESIGN.md 3/C14',
+    'note': 'Exact universe: N<=6/7, p<=2/3 real, N<=5 p<=2 complex; singular normal matrices, exact solutions with |a|>1e3 and (for the fast recursions) data with zero samples or non-generic lower orders are excluded and counted. Large sizes: quantised residuals computed from the code-provided data matrix.',
+    'technique': 'TLA+ exact least squares + TLC enumeration + state replay; TLC-validated observation events',
+}
+
 NOT_APPLICABLE = {
     'C18': 'Slepian tapers: irrational eigenproblem solved in C; no exact finite model exists and quantised re-verification would make Python the oracle (a different technique). DESIGN.md section 4.',
 }
